@@ -53,6 +53,7 @@ type FuncContract struct {
 	ResultNames []string
 	Requires    []Clause
 	Ensures     []Clause
+	Finals      []Clause // assertions at every return, with the function's locals in scope (not exported to callers)
 	Modifies    []ast.Expr
 	ModAll      bool // no modifies clause given, or `modifies *`
 	HasModifies bool
@@ -217,6 +218,12 @@ func (fc *FuncContract) addClause(word, rest, where string) error {
 			return err
 		}
 		fc.Ensures = append(fc.Ensures, c)
+	case "final":
+		c, err := parseLabeled("final", rest, where)
+		if err != nil {
+			return err
+		}
+		fc.Finals = append(fc.Finals, c)
 	case "modifies":
 		fc.HasModifies = true
 		fc.ModAll = false
